@@ -21,7 +21,8 @@ def _schema(version):
         from hed import load_schema_version
         from hed.models.definition_dict import DefinitionDict
         s = load_schema_version(version)
-        _G[version] = (s, DefinitionDict(hedgen.DEFS, s), hedgen.Vocab(version))
+        vocab = hedgen.Vocab(version)
+        _G[version] = (s, DefinitionDict(vocab.defs, s), vocab)
     return _G[version]
 
 
@@ -33,8 +34,10 @@ def expected_codes(case, flaw):
 def run_chunk(args):
     version, cases, base_rot, allow_ph = args
     from hed import HedString
+    from hed.validator import HedValidator
     schema, dd, vocab = _schema(version)
-    out = []
+    shared = HedValidator(schema, def_dicts=dd)      # ONE validator object for the whole chunk: the verdict must not depend on
+    out = []                                          # what the validator has seen before
     for ci, case in cases:
         if not vocab.usable(case):
             out.append((ci, None))
@@ -44,7 +47,10 @@ def run_chunk(args):
         try:
             issues = HedString(text, schema, dd).validate(allow_placeholders=allow_ph)
             errs = sorted({i["code"] for i in issues if i.get("severity", 1) == 1})
-            out.append((ci, {"text": text, "flaw": flaw, "errs": errs}))
+            res = {"text": text, "flaw": flaw, "errs": errs}
+            i2 = shared.validate(HedString(text, schema, dd), allow_placeholders=allow_ph)
+            res["errs_shared"] = sorted({i["code"] for i in i2 if i.get("severity", 1) == 1})
+            out.append((ci, res))
         except Exception as ex:  # noqa
             out.append((ci, {"text": text, "flaw": flaw, "raised": "%s: %s" % (type(ex).__name__, ex)}))
     return version, allow_ph, out
@@ -84,6 +90,13 @@ def run(ctx):
             cases.append(j)
             nn += 1
     ctx.note("neighbourhood_trees", nn)
+    rc = ctx.tlc("MC_HedRules", "MC_HedRules_conf.cfg", workers=1, label="one step from sibling groups holding the same tags in different "
+                 "nesting", timeout=3000)
+    for j in rc.json_lines:
+        k = json.dumps([j["par"], j["kind"]])
+        if k not in seen and j["nviol"] <= 1:
+            seen.add(k)
+            cases.append(j)
     versions = [v for v, _ in facts.bundled()]
     jobs = []
     CH = 2000
@@ -111,21 +124,25 @@ def run(ctx):
                 ctx.violation("raises", "schema %s: validating %r raised %s" % (version, res["text"], res["raised"]), rep)
                 continue
             want = expected_codes(case, res["flaw"])
-            if case["nviol"] == 0:
-                if res["errs"]:
-                    ctx.violation("valid-rejected:" + ",".join(res["errs"]),
-                                  "schema %s (placeholders %s): rule-conforming annotation %r reported %s"
-                                  % (version, "allowed" if allow_ph else "not allowed", res["text"], res["errs"]), rep)
-            elif case["nviol"] == 1:
-                miss = [c for c in want if c not in res["errs"]]
-                if miss:
-                    what = res["flaw"][0] if (res["flaw"] and "BASIC" in case["codes"]) else want[0]
-                    ctx.violation("violation-missed:%s" % what,
-                                  "schema %s (placeholders %s): %r breaks exactly one rule (%s) but validation reported %s, "
-                                  "expected %s" % (version, "allowed" if allow_ph else "not allowed", res["text"], what,
-                                                   res["errs"], want), rep)
-            else:
-                if res["errs"] != want:
+            for how, errs in (("", res["errs"]), (" by a validator object that validated other annotations before", res.get("errs_shared"))):
+                if errs is None:
+                    continue
+                if how:
+                    ctx.evaluations += 1
+                if case["nviol"] == 0:
+                    if errs:
+                        ctx.violation("valid-rejected:" + ",".join(errs),
+                                      "schema %s (placeholders %s): rule-conforming annotation %r reported %s%s"
+                                      % (version, "allowed" if allow_ph else "not allowed", res["text"], errs, how), rep)
+                elif case["nviol"] == 1:
+                    miss = [c for c in want if c not in errs]
+                    if miss:
+                        what = res["flaw"][0] if (res["flaw"] and "BASIC" in case["codes"]) else want[0]
+                        ctx.violation("violation-missed:%s" % what,
+                                      "schema %s (placeholders %s): %r breaks exactly one rule (%s) but validation%s reported %s, "
+                                      "expected %s" % (version, "allowed" if allow_ph else "not allowed", res["text"], what, how,
+                                                       errs, want), rep)
+                elif errs != want and not how:
                     drift += 1
     ctx.note("multi_violation_cases_with_different_code_sets", drift)
     ctx.note("validations_per_schema", used)
